@@ -150,14 +150,14 @@ def _run_pair(item):
             "warn": [m[:80] for m in obs["warnings"]][:3]}
 
 
-def rejection_records(prog, opts, rej, mine):
+def rejection_records(prog, opts, rej, mine, trace):
     recs = []
     for f in rej["failed"]:
         observable = REJ_OBS.get(f)
         if observable is None or observable not in mine:
             continue
         pname = rej["ev"] if rej["ev"] in L.PASSES else "detect_aliases"
-        it = 2 if rej["l"] > len(L.PASSES) + 6 else 1
+        it = 1 + sum(1 for e in trace[:rej["l"] - 1] if e["ev"] == "pass" and e["name"] == L.PASSES[-1])
         recs.append({"observable": observable, "tags": shape_tags(prog, opts, pname, it), "exception_type": None,
                      "detail": "SimplifyTrace rejects the recorded trace at event %d (%s): %s fails | bp=%s opts=%s" % (
                          rej["l"], rej["ev"], f, json.dumps(prog["bp"], sort_keys=True), sorted(opts))})
@@ -297,6 +297,51 @@ def run(ctx, prop):
     if not tallies.get("checked"):
         raise MachineryError("vacuous: no program was checked")
 
+    # ---- 4b. conformance of the operational spec itself (auxiliary state -> model drift only): for a sample of
+    #          the pairs TLC prints every admissible final state; the observed final name sets / equation count
+    #          must be one of them
+    nfin = int(os.environ.get("VERIF_SIMPLIFY_FIN", "150" if thorough else "40"))
+    step = max(1, len(groups) // nfin)
+    sample = [g for k, g in enumerate(groups) if k % step == 0][:nfin]
+    sample = [dict(g, optsets=g["optsets"][:6]) for g in sample]
+    path = L.write_json(sample, "simpairs_")
+    try:
+        rfin = L.tlc.run("Simplify", "Simplify_pairs_fin.cfg", workers=1, env={"PAIR_FILE": path}, deadlock=False,
+                         timeout=3000)
+    finally:
+        os.unlink(path)
+    ctx.add_tlc(rfin, "intended spec on a sample of the pairs, printing every admissible final state (FIN lines)")
+    if rfin.violated:
+        raise MachineryError("spec Simplify (intended) violates %s" % rfin.violated)
+    fins = {}
+    for f in rfin.tr("FIN"):
+        fins.setdefault((bpkey(f["bp"]), tuple(sorted(f["opts"]))), []).append(f)
+    conf = {"compared": 0, "predicted": 0}
+    for r in results:
+        key = (bpkey(progs[r["i"]]["bp"]), tuple(r["opts"]))
+        if key not in fins:
+            continue
+        conf["compared"] += 1
+        if r["final"] is None:
+            ok = any(f["status"] == "raised" for f in fins[key])
+            kind = "failure-not-predicted-by-spec"
+        else:
+            o = r["final"]
+            ok = any(f["status"] == "done" and f["fin"]["neq"] == o["neq"] and
+                     all(set(f["fin"][k]) == set(o[k]) for k in "SDAIPK") for f in fins[key])
+            kind = "final-name-sets-not-predicted-by-spec"
+        if ok:
+            conf["predicted"] += 1
+        else:
+            ctx.note_drift(kind)
+            ex = ctx.extra.setdefault("drift_examples", [])
+            if len(ex) < 5:
+                ex.append({"kind": kind, "bp": progs[r["i"]]["bp"], "opts": r["opts"], "observed": r["final"],
+                           "tally": r["tally"], "predicted": [dict(f["fin"], status=f["status"]) for f in fins[key]][:3]})
+    ctx.extra["spec_conformance_final_state"] = conf
+    if not conf["compared"]:
+        raise MachineryError("vacuous: no final state compared with the spec")
+
     # ---- 5. binding B: the recorded per-pass traces against SimplifyTrace.tla
     ntr = int(os.environ.get("VERIF_SIMPLIFY_TRACES", "2500" if thorough else "350"))
     idx = list(range(len(traces)))
@@ -307,15 +352,23 @@ def run(ctx, prop):
     ctx.traces += len(sel)
     for k, rj in rej.items():
         i, opts = trace_items[idx[k]]
-        recs = rejection_records(progs[i], opts, rj, mine)
+        recs = rejection_records(progs[i], opts, rj, mine, sel[k])
         for rec in recs:
             ctx.violation(rec, {"kind": "trace", "prog": progs[i], "opts": opts})
-        other = [f for f in rj["failed"] if REJ_OBS.get(f) is None]
+        other = [f for f in rj["failed"] if REJ_OBS.get(f) is None] if not any(REJ_OBS.get(f) for f in rj["failed"]) else []
         for f in other:
             ctx.note_drift("trace-%s" % f)
+            ex = ctx.extra.setdefault("drift_examples", [])
+            if len(ex) < 5:
+                ex.append({"bp": progs[i]["bp"], "opts": opts, "rejection": rj,
+                           "events": [{k2: v for k2, v in e.items() if k2 not in ("syms", "opts")}
+                                      for e in sel[k][max(0, rj["l"] - 3):rj["l"]]]})
     ctx.sample({"kind": "recorded-trace", "events": [{k: v for k, v in e.items() if k != "syms"} for e in sel[0][:4]]}, limit=4)
     # ---- 6. binding self-tests: a corrupted trace / a corrupted observation must be rejected
-    bad = json.loads(json.dumps(sel[:3]))
+    bad = json.loads(json.dumps([t for t in sel if any(
+        e["ev"] == "pass" and e["name"] == "factor_and_simplify_equations" for e in t)][:3]))
+    if not bad:
+        raise MachineryError("no complete trace recorded")
     for t in bad:
         for e in t:
             if e["ev"] == "pass" and e["name"] == "factor_and_simplify_equations":
@@ -334,6 +387,11 @@ def run(ctx, prop):
         "algebraics/inputs (flag computed by the spec)",
         "eliminable_variable_expression is the regular expression e_.*; time and inputs do not occur in eliminated definitions "
         "of states"]
+    if os.environ.get("VERIF_DEBUG_TIMES"):
+        print(json.dumps(ctx.extra.get("drift_examples"), indent=1)[:3000])
+        print(json.dumps(ctx.extra.get("verdict_tally")), json.dumps(ctx.extra.get("asbuilt_counterexamples")))
+        for c in ctx.tlc_cmds:
+            print("  tlc %6.1fs %7d states  %s" % (c["wall_s"], c["distinct"], c["what"][:90]))
     return {"exhaustive": False}
 
 
@@ -346,7 +404,7 @@ def replay(ctx, sc, prop):
     if sc.get("kind") == "trace" and obs["trace"] is not None:
         rej = L.validate_traces(ctx, [obs["trace"]], "replay of one recorded trace")
         for rj in rej.values():
-            recs += rejection_records(prog, opts, rj, mine)
+            recs += rejection_records(prog, opts, rj, mine, obs["trace"])
     if tally:
         print("replay: %s" % tally)
     return recs
